@@ -15,7 +15,7 @@ from simkit.simio import SimStream, SimFS
 from simkit.tape import digest_of
 
 ID = "C16"
-RUNS = {"quick": 1_000_000, "thorough": 20_000_000}
+RUNS = {"quick": 2_000_000, "thorough": 20_000_000}
 SIM_TIME_UNIT = "read()/seek() calls on the simulated stream"
 RULE = (
     "each run = one of: (a) content_from_stream / content_from_file over a simulated stream whose read(n) "
